@@ -76,7 +76,10 @@ def check(run):
         F = run.facts(cfg)
         from analysis.guards import rule_visits_all as _rva
         run.guard("C01.8.every-candidate", cfg, lambda: _rva(run, "C01.8.every-candidate", F, cfg, ['network_filter_list::NetworkFilterList::check', 'network_filter_list::NetworkFilterList::check_all', 'network_filter_list::NetworkFilterList::new', 'network_filter_list::NetworkFilterList::add_filter'],
-                  'Every rule is filed, and every rule of every bucket named by a request token is tried', minimum=4))
+                  'Every rule is filed, and every rule of every bucket named by a request token is tried',
+                  # `check` answers with the FIRST suitable rule: `find` over all candidates is that (what its predicate has to
+                  # require is C07.2 / C01.3 chain-predicate)
+                  allowed=[(r"NetworkFilterList::check$", "find")], minimum=4))
         run.guard("C01.1.token-source", cfg, lambda: rule_store(run, F, cfg))
         run.guard("C01.1.token-source", cfg + "/probe", lambda: rule_probe(run, F, cfg))
         run.guard("C01.3.exhaustive-probing", cfg, lambda: rule_exhaustive(run, F, cfg))
@@ -223,6 +226,19 @@ def rule_exhaustive(run, F, cfg):
         run.touched(f)
         outer = [(b, t) for b, t in f.calls(r"Iterator>::next$|Iterator::next$")
                  if "get_tokens_for_match" in f.expr_operand(t["args"][0])]
+        if not outer:
+            # the same walk written as one iterator chain: tokens -> buckets -> flatten -> find / filter
+            from . import C07 as _C07ch
+            ch = _C07ch.probe_chain(F, f, kind)
+            if ch is not None:
+                okc = ch["lookup"] and not ch["others"] and ch["requires_match"]
+                for inst, text in (("iterates-all-probes", "runs over request.get_tokens_for_match() itself"),
+                                   ("returns", "ends only when every probe token has been looked up" + (" or with the first rule its predicate accepts" if kind == "first" else "")),
+                                   ("whole-bucket", "flattens the whole bucket of each probed token")):
+                    run.ob("C01.3.exhaustive-probing", f"{kind}:{inst}", okc,
+                           f"{name} (iterator chain) {text}: bucket lookup {'plain' if ch['lookup'] else 'NOT plain'}, selecting closures "
+                           f"{ch['preds']}, other selecting steps {ch['others']}", site=ch["site"], config=cfg)
+                continue
         it = f.calls(r"^request::Request::get_tokens_for_match$")
         plain = bool(outer) and all(re.search(r"^request::Request::get_tokens_for_match\(arg:request\)$", f.expr_operand(t["args"][0])) for b, t in outer)
         run.ob("C01.3.exhaustive-probing", f"{kind}:iterates-all-probes", len(it) == 1 and plain,
